@@ -56,6 +56,7 @@ type Exec struct {
 	entryEnv map[string]Val
 	curFr    *Frame
 	curIns   ssa.Instruction
+	atcallUsed map[string]bool
 }
 
 type Frame struct {
